@@ -501,7 +501,10 @@ class Interp:
         if isinstance(target, ast.Name):
             env.assign(target.id, value)
         elif isinstance(target, (ast.Tuple, ast.List)):
-            vals = list(value)
+            if isinstance(value, Host) and hasattr(value, 'unpack'):
+                vals = value.unpack(len(target.elts))
+            else:
+                vals = list(value)
             star = [i for i, t in enumerate(target.elts) if isinstance(t, ast.Starred)]
             if star:
                 i = star[0]
